@@ -43,6 +43,27 @@ claimed = {
  "C18": ("exploration", "fault_enumeration", "4 C18",
          "The closer fires at scheduler step k of a mixed workload (queued/written/answered calls, large frames in chunks, streams, reconnect window, redial in progress); quick samples k, thorough sweeps k = 0..599; oracles after 12 fake minutes: closer returned, all calls returned, late calls fail, every handed channel closed, no dial after the closer returned, http/custom closers return and leave calls alone.",
          "deterministic simulation with close-instant sweep and clock-free hang oracle"),
+ "C06": ("exploration", "exploration", "4 C06",
+         "Healthy-network search over which subset of concurrent calls / subscriptions (ws and http, one or two connections) is cancelled and at which scheduler instant (before send, after send, racing the response, after the subscribing call returned); run-time invariant: a handler context is done only if its own caller cancelled; hang oracle: a cancelled call's running handler sees the cancellation; wire tap: cancel frames carry no id and exactly the cancelled request's id.",
+         "deterministic simulation (seeded step scheduler) with per-handler context invariant"),
+ "C10": ("exploration", "exploration", "4 C10",
+         "Byzantine peer: a harness-driven raw WebSocket endpoint sends grammar-generated and mutated frames (built-in xrpc.* methods with every params/id shape, responses to requests never made, garbage, binary, empty), preferring ids that refer to live state, interleaved by the scheduler with an honest client's calls, subscription and in-flight call on another connection; symmetric hostile-server family against a real client; oracle: process alive (a crash is attributed by stack), honest traffic undisturbed, same connection still answers. Size clause enumerated (L-1, L, L+1).",
+         "deterministic simulation with a Byzantine endpoint; process-crash detection by the driver"),
+ "C13": ("exploration", "exploration", "4 C13",
+         "Handler-panic fault (string, error, custom struct, nil-map write, nil dereference, index, panic(nil)) injected into unary, notification, channel-returning and client-side reverse handlers over ws and http while siblings are queued, running or streaming; oracle: process alive, panicking call returns an error mentioning the panic, siblings keep C02/C07 guarantees, later calls succeed.",
+         "deterministic simulation with handler-panic fault injection"),
+ "C14": ("exploration", "exploration", "4 C14",
+         "Maximal writer diversity on one connection in both directions (requests, both cancel paths, lazily written responses up to 5x the write buffer, channel registrations/values/closes, reverse calls, pings down to 5 ms, close handshake, reconnect swap, write stalls); the simulated Conn.Write parks while the caller holds writeLk; black-box oracle: every tap byte stream parses as whole WebSocket frames and whole JSON-RPC messages, nothing after a close frame, no panic (gorilla's concurrent-write panic is a process crash). The memory-model clause ('never accessed without synchronisation') is NOT decided: the step scheduler serialises execution and blinds -race.",
+         "deterministic simulation with frame-parsing wire taps on every byte stream"),
+ "C15": ("exploration", "fault_enumeration", "4 C15",
+         "End cause (graceful client close, FIN, RST, server context cancel) x mix of handlers in progress (unary, notification, streaming, reverse-calling, large results) x handler reaction time (0..400 fake seconds), 1-3 connections; oracles: every handler context of the dead connection is cancelled one fake minute later and none on other connections; after the handlers returned + 12 fake minutes no goroutine carrying the dead connection's pprof label remains.",
+         "deterministic simulation with fault injection and goroutine-label leak oracle"),
+ "C16": ("exploration", "exploration", "4 C16",
+         "2-4 simultaneously connected clients with client-side handlers (plain, aliased, rpc_method-tagged), concurrent forward calls whose server handlers call back 1-3 times while pending, FIN/RST at any frame position of the exchange, plus http/custom clients and a server without the option; oracles: every reverse call returns the identity of the client whose request is being served, server handlers never stay blocked once the connection is gone, no reverse client over non-WS transports or without the option.",
+         "deterministic simulation with fault injection and identity-token oracle"),
+ "C20": ("exploration", "exploration", "4 C20",
+         "httpio encoder/decoder pair over the simulated network with the side-channel upload through a replaced http.DefaultTransport: arrival order of upload vs RPC request and the interleaving of 1-4 concurrent uploads are network scheduling decisions; lengths 0..1 MiB around buffer sizes, read patterns (ReadAll, byte-at-a-time, odd buffer, reads past EOF, Close before/after EOF); oracles: byte-exact (length + hash), EOF repeated consistently, no panic, every upload request completes with 200.",
+         "deterministic simulation (network-ordered rendezvous) with byte-exact stream oracle"),
 }
 
 not_applicable = {
